@@ -29,9 +29,9 @@ ListCase(e) ==
 CleanCase(e) ==
   LET t == Tree(e.m)  removed == SeqToSet(e.obs.removed) IN
   /\ CheckAll({"C12"}, <<"panic-or-error", e.id>>, e.obs.ok)
-  /\ CheckAll({"C12"}, <<"declared-output-not-removed", e.id, MustRemoveAll(t, e.m.resources) \ removed>>,
+  /\ CheckAll({"C12", "C15"}, <<"declared-output-not-removed", e.id, MustRemoveAll(t, e.m.resources) \ removed>>,
               e.obs.ok => MustRemoveAll(t, e.m.resources) \subseteq removed)
-  /\ CheckAll({"C12"}, <<"deleted-something-else", e.id, removed \ (MustRemoveAll(t, e.m.resources) \cup MayRemoveAll(t, e.m.resources))>>,
+  /\ CheckAll({"C12", "C15"}, <<"deleted-something-else", e.id, removed \ (MustRemoveAll(t, e.m.resources) \cup MayRemoveAll(t, e.m.resources))>>,
               removed \subseteq MustRemoveAll(t, e.m.resources) \cup MayRemoveAll(t, e.m.resources))
 
 WatchCase(e) ==
